@@ -7,6 +7,8 @@
 package c13
 
 import (
+	"verifharness/scratch"
+
 	"bytes"
 	"context"
 	"fmt"
@@ -82,6 +84,7 @@ type cmdResult struct {
 // runCmd runs a command in its own process group (generators start `go list`
 // children) and kills the whole group on timeout.
 func runCmd(dir string, env []string, timeout time.Duration, name string, args ...string) cmdResult {
+	defer scratch.CacheLockShared()()
 	ctx, cancel := context.WithTimeout(context.Background(), timeout)
 	defer cancel()
 	cmd := exec.Command(name, args...)
